@@ -48,6 +48,8 @@ def correspond(ctx):
       ctx.broken('correspondence:K1 model vs engine trace (%s)' % ', '.join(bits),
                  json.dumps({'history': meta['history'], 'bundle': meta['bundle']}, default=repr)[:1500])
     ctx.bump('theorem-hypotheses-hold' if not code & K.B_NOTHM else 'outside-proved-class')
+    if not code & K.B_NOTHM and code & K.B_NOTHM2:
+      ctx.bump('theorem-hypotheses-hold:stage3-only')
     if not code & K.B_NOTHM and code & K.B_MREDO and not code & K.B_MUNDO:
       ctx.broken('theorem contradicted on a recorded trace', json.dumps({'bundle': meta['bundle']}, default=repr)[:800])
     if code & K.B_MREDO:
